@@ -320,50 +320,49 @@ func c15Programs(maxCalls int, concurrent bool) []string {
 }
 
 func c15Run(c *fw.Ctx) {
-	maxCalls, bound := 3, 2
-	if c.Thorough() {
-		maxCalls, bound = 4, 2
-	}
-	progs := c15Programs(maxCalls, true)
-	if c.Shard == 0 {
-		c.Count("programs", int64(len(progs)))
-	}
-	for _, prog := range progs {
-		if !c.Mine() {
-			continue
-		}
-		if c.Expired() {
-			return
-		}
-		c15Explore(c, prog, bound)
-	}
-	// the same lifecycle with the TLS port enabled and clients that do the real handshake
-	tlsCalls, tlsBound := 2, 1
-	if c.Thorough() {
-		tlsCalls, tlsBound = 3, 2
-	}
 	defer cleanupKit()
-	for _, prog := range c15TLSPrograms(tlsCalls) {
-		if !c.Mine() {
-			continue
+	// phases in order of increasing cost; each is complete only if every worker
+	// finished its share (<phase>_done == <phase>_programs in the evidence counters)
+	phase := func(name string, progs []string, bound int) bool {
+		if c.Shard == 0 {
+			c.Count(name+"_programs", int64(len(progs)))
 		}
-		if c.Expired() {
-			return
-		}
-		c15Explore(c, prog, tlsBound)
-	}
-	if c.Thorough() {
-		// deeper bound for the short programs
-		for _, prog := range c15Programs(3, true) {
+		for _, prog := range progs {
 			if !c.Mine() {
 				continue
 			}
 			if c.Expired() {
-				return
+				c.Cap("phase %s (deviation bound %d) stopped by the internal deadline; see the %s_done counter", name, bound, name)
+				return false
 			}
-			c15Explore(c, prog, 3)
+			c15Explore(c, prog, bound)
+			if c.Expired() {
+				c.Cap("phase %s (deviation bound %d) stopped by the internal deadline; see the %s_done counter", name, bound, name)
+				return false
+			}
+			c.Count(name+"_done", 1)
 		}
+		return true
 	}
+	if !phase("p1_plain_calls3_bound2", c15Programs(3, true), 2) || !phase("p1_tls_calls2_bound1", c15TLSPrograms(2), 1) {
+		return
+	}
+	if !c.Thorough() {
+		return
+	}
+	only := func(progs []string, n int) []string {
+		var out []string
+		for _, p := range progs {
+			if c15Calls(p) == n {
+				out = append(out, p)
+			}
+		}
+		return out
+	}
+	_ = phase("p2_plain_calls3_bound3", c15Programs(3, true), 3) &&
+		phase("p3_tls_calls3_bound2", only(c15TLSPrograms(3), 3), 2) &&
+		phase("p4_tls_calls2_bound3", c15TLSPrograms(2), 3) &&
+		phase("p5_plain_calls4_bound2", only(c15Programs(4, true), 4), 2)
 }
 
 func c15Explore(c *fw.Ctx, prog string, bound int) {
@@ -466,7 +465,7 @@ func init() {
 	fw.Register(&fw.Prop{
 		ID:    "C15",
 		Level: "model_checking",
-		Rule:  "lifecycle programs: every sequence over {Start, Stop, Restart} of up to 3 calls (thorough 4) beginning with Start - including Stop on a stopped and Start on a running server - decorated between calls with {nothing, a client that connects, PINGs and disconnects, a client that PINGs and stays idle}, each also with a trailing client action, plus the variants in which a client thread dials and PINGs concurrently with a Stop/Restart; every schedule of the real Start/Stop/Restart, accept loops and connection goroutines with <= 2 preemptions (thorough: 3 for programs of <= 3 calls) over an in-memory port namespace (bind conflicts, backlog, close); the same programs with the TLS port enabled and clients doing the real crypto/tls handshake (<= 2 calls, bound 1; thorough 3 calls, bound 2). Oracle: after Start/Restart returned nil every dial is accepted and PING answered; after Stop returned and quiescence the port can be bound, every client connection is closed, no server goroutine is alive, the registry is empty; while running the registry holds exactly the served connections and an accept loop is parked in Accept. A program is non-trivial when its schedules produce more than one distinct terminal observation.",
+		Rule:  "lifecycle programs: every sequence over {Start, Stop, Restart} of up to 3 calls (thorough: also 4) beginning with Start - including Stop on a stopped and Start on a running server - decorated between calls with {nothing, a client that connects, PINGs and disconnects, a client that PINGs and stays idle}, each also with a trailing client action, plus the variants in which a client thread dials and PINGs concurrently with a Stop/Restart; every schedule of the real Start/Stop/Restart, accept loops and connection goroutines within deviation bound 2 over an in-memory port namespace (bind conflicts, backlog, close); the same programs with the TLS port enabled and clients doing the real crypto/tls handshake (<= 2 calls, bound 1). Thorough runs further phases in this order, each complete only when its <phase>_done counter equals <phase>_programs: plain <= 3 calls at bound 3; TLS 3 calls at bound 2; TLS <= 2 calls at bound 3; plain 4 calls at bound 2 (caps name the phase the deadline interrupted). Oracle: after Start/Restart returned nil every dial is accepted and PING answered; after Stop returned and quiescence the port can be bound, every client connection is closed, no server goroutine is alive, the registry is empty; while running the registry holds exactly the served connections and an accept loop is parked in Accept. A program is non-trivial when its schedules produce more than one distinct terminal observation.",
 		Assumptions: []string{
 			"sequentially consistent interleavings; scheduling points at go, mutex, sync.Map, listener and connection operations (plus racy-set accesses)",
 			"programs with TLS clients (real handshake, valid certificate) use up to 2 calls at deviation bound 1 in quick (3 calls, bound 2 in thorough)",
@@ -488,4 +487,9 @@ func schedFinish(tier string, m *fw.Result, cov map[string]any) {
 	cov["states"] = m.Counters["distinct_states"]
 	cov["transitions"] = m.Counters["transitions"]
 	cov["traces_validated_against_impl"] = m.Evaluations
+}
+
+// c15Calls counts the lifecycle calls (Start/Stop/Restart) of a program.
+func c15Calls(prog string) int {
+	return strings.Count(prog, "S") + strings.Count(prog, "T") + strings.Count(prog, "R")
 }
